@@ -186,3 +186,46 @@ def c12(ctx, api):
     acc.add('GenSlice: n<=%d, every (start,stop,step) in absent/[-n-2,n+2]/64-bit limits, arrays and strings, 3 followers' % maxn,
             st, summ)
     return acc.result(RULE_PINNED, extra={'bounds': {'max_length': maxn}})
+
+
+# --------------------------------------------------------------------- C20
+@plan('C20')
+def c20(ctx, api):
+    acc = Acc()
+    st, summ = api['run_tlc_to_harness'](ctx, 'eq', 'GenEq', cfg(constants={'Emit': 'TRUE', 'Prop': '"C20"'}), timeout=1500)
+    acc.add('GenEq: all ordered pairs of a 30-value pool x 16 expressions; 15 number spellings pairwise', st, summ)
+    if ctx['tier'] == 'thorough':
+        # the same relations reached through the operator generator's documents
+        text = cfg(constants={'Emit': 'TRUE', 'Prop': '"C20"', 'Triples': 'FALSE', 'NDocs': 1000})
+        text = text.replace('CONSTANTS\n', 'CONSTANTS\n  Pool <- PoolOpsBig\n')
+        st, summ = api['run_tlc_to_harness'](ctx, 'ops', 'GenOps', text, timeout=3000)
+        acc.add('GenOps operator pairs on 1000 documents (boolean combinations)', st, summ)
+    return acc.result(RULE_PINNED, extra={'model_checks': ['Reflexive', 'Symmetric', 'Transitive', 'TypeStrict',
+                                                           'NeIsNegation', 'ContainsIsExistsEq', 'FiveFalseLike',
+                                                           'AndOrReturnOperand']})
+
+
+# --------------------------------------------------------------------- C19
+@plan('C19')
+def c19(ctx, api):
+    acc = Acc()
+    thorough = ctx['tier'] == 'thorough'
+    st, summ = api['run_tlc_to_harness'](ctx, 'let', 'GenLet',
+                                         cfg(constants={'Emit': 'TRUE', 'Prop': '"C19"', 'Depth': 3 if thorough else 2}),
+                                         timeout=3000)
+    acc.add('GenLet: let nestings to depth %d x 6 documents' % (3 if thorough else 2), st, summ)
+    return acc.result(RULE_PINNED, extra={'model_checks': ['EnvEqualsSubstitution', 'Parses']})
+
+
+# --------------------------------------------------------------------- C02
+@plan('C02')
+def c02(ctx, api):
+    acc = Acc()
+    thorough = ctx['tier'] == 'thorough'
+    st, summ = api['run_tlc_to_harness'](ctx, 'call', 'GenCall',
+                                         cfg(constants={'Emit': 'TRUE', 'Prop': '"C02"', 'Small': 15 if thorough else 9}),
+                                         timeout=3000)
+    acc.add('GenCall: every function x 0..max+1 arguments x pool tuples (pool 21 values + 3 references; %d from the 3rd argument)'
+            % (15 if thorough else 9), st, summ)
+    return acc.result(RULE_PINNED, extra={'model_checks': ['UnknownFunction', 'ArityIffOutOfRange', 'NoArityWhenInRange',
+                                                           'TypeErrorIffOutsideSignature', 'OnlyDynamicCategories']})
